@@ -26,8 +26,13 @@ LEAN_PROPS = "Dashu.Props.C11"
 LEAN_AUDIT = "Dashu.Audit.C11"
 # the powi error bound builds on builder-float's C03 contracts (Dashu/Proofs/Float, imported read-only); it is kept
 # in a module of its own so that Props/C11 never depends on them
-GEN_PROPS = ["Dashu.Props.C11Powi", "Dashu.Props.C11Formulas", "Dashu.Props.C11Float", "Dashu.Props.C11Series"]
-GEN_AUDIT = ["Dashu.Audit.C11Powi", "Dashu.Audit.C11Formulas", "Dashu.Audit.C11Float", "Dashu.Audit.C11Series"]
+GEN_PROPS = ["Dashu.Props.C11Powi", "Dashu.Props.C11Formulas", "Dashu.Props.C11Float", "Dashu.Props.C11Series",
+             "Dashu.Props.C11Gen"]
+GEN_AUDIT = ["Dashu.Audit.C11Powi", "Dashu.Audit.C11Formulas", "Dashu.Audit.C11Float", "Dashu.Audit.C11Series",
+             "Dashu.Audit.C11Gen"]
+# Tie A (round 5): lean/Dashu/Gen/TransPrec.lean is regenerated from float/src/{exp,log,fbig}.rs on every run
+# (vlib/extract.py gen_trans_prec -> vlib/extract_transprec.py); Props/C11Gen proves the model's precision formulas equal to it
+USES_GEN = True
 JOBS = 14
 
 BASES = [2, 3, 10, 16, 36]
@@ -546,6 +551,104 @@ def pow_guard_arm_cases(rng, tier):
                 else:
                     yield ("f." + op, [fenc(B, s if rng.random() < 0.5 else -s, e, p, m)])
 
+# ----------------------------------------------------------------------------- round 5: E1 / E2 classes
+
+UMAX = 2 ** 64 - 1
+
+def _extreme_uints(rng, tier):
+    """E1: 2^31, 2^32-1, 2^32, 2^32+k (k < 130), 2^63, MAX-k (k = 0..130); quick: a sample of the k, thorough: all of them"""
+    base = [2 ** 31, 2 ** 32 - 1, 2 ** 32, 2 ** 63 - 1, 2 ** 63, 2 ** 63 + 1, UMAX, UMAX - 1]
+    ks = list(range(1, 130)) if tier != "quick" else rng.sample(range(1, 130), 4) + [1, 129]
+    return base + [2 ** 32 + k for k in ks] + [UMAX - k for k in (ks + [130])]
+
+def extreme_argument_cases(rng, tier):
+    """E1 — extreme machine-integer arguments of the public operations.
+    (a) precision (usize) of a Context / carried by an FBig: 2^31 … usize::MAX on the inputs where the call is cheap, i.e. the
+        exact shortcuts (exp 0, exp_m1 0, ln 1, ln_1p 0, x^0, x^1, powf y = 0 / 1): the result carries the precision
+        unchanged (x^1) or is the constant; W-1, W, W+1, 2W (63, 64, 65, 128) as ordinary precisions on ordinary arguments;
+    (b) exponent of powi (IBig): ±2^31 … ±2^128 on the bases 0, 1, -1 (the powering loop runs bit_len(k) exact squarings; the
+        model decides by sign and parity, Props/C11Powi.unit_base_zpow_reduce), 0^negative -> the documented panic."""
+    for P in _extreme_uints(rng, tier):
+        B = rng.choice(BASES); m = rng.choice(MODES)
+        x = fenc(B, *float_with_top(rng, B, 5, rng.choice([0, 1, 3]), 5), 0, m)
+        zero = fenc(B, 0, 0, 0, m); one = fenc(B, 1, 0, 0, m)
+        pick = rng.randrange(4) if tier == "quick" else None
+        table = [("c.exp", [zero, dec(P)]), ("c.exp_m1", [zero, dec(P)]), ("c.ln", [one, dec(P)]), ("c.ln_1p", [zero, dec(P)]),
+                 ("c.powi", [x, "k:0", dec(P)]), ("c.powi", [x, "k:1", dec(P)]),
+                 ("c.powf", [x, zero, dec(P)]), ("c.powf", [x, one, dec(P)]), ("c.powf", [zero, x.replace(":-", ":"), dec(P)]),
+                 ("f.exp", [fenc(B, 0, 0, P, m)]), ("f.exp_m1", [fenc(B, 0, 0, P, m)]), ("f.ln", [fenc(B, 1, 0, P, m)]),
+                 ("f.ln_1p", [fenc(B, 0, 0, P, m)]),
+                 ("f.powi", [fenc(B, *float_with_top(rng, B, 5, 1, 5), P, m), "k:" + hx(rng.choice([0, 1]))]),
+                 ("f.powf", [fenc(B, *float_with_top(rng, B, 5, 1, 5), P, m), fenc(B, rng.choice([0, 1]), 0, 3, m)])]
+        for i, (op, args) in enumerate(table):
+            if pick is None or i % 4 == pick:
+                yield (op, args)
+    for P in (63, 64, 65, 128):
+        for B in BASES:
+            m = rng.choice(MODES)
+            op = rng.choice(["exp", "exp_m1", "ln", "ln_1p"])
+            s, e = (exp_inputs if op in ("exp", "exp_m1") else ln_inputs)(rng, B, P, op)
+            if abs(e) > 400 or (op == "ln" and s <= 0) or (op == "ln_1p" and Fraction(s) * Fraction(B) ** e <= -1):
+                s, e = 3, 0
+            yield ("f." + op, [fenc(B, s, e, P, m)])
+            yield ("f.powi", [fenc(B, *float_with_top(rng, B, P, 1), P, m), "k:" + hx(rng.choice([2, 3, -2, 63, 64, 65]))])
+    ks = [2 ** 31, 2 ** 32 - 1, 2 ** 32, 2 ** 63 - 1, 2 ** 63, 2 ** 64 - 1, 2 ** 64, 2 ** 64 + 1, 2 ** 127, 2 ** 128 - 1, 2 ** 128]
+    ks += [2 ** 32 + k for k in (range(1, 130) if tier != "quick" else rng.sample(range(1, 130), 3))]
+    ks += [2 ** 64 + k for k in (range(1, 130) if tier != "quick" else rng.sample(range(1, 130), 3))]
+    for k in ks:
+        for sg in ((1, -1) if tier != "quick" else (rng.choice([1, -1]),)):
+            B = rng.choice(BASES); m = rng.choice(MODES); p = rng.choice([1, 3, 53])
+            for base in (1, -1, 0):
+                if base == 0 and sg < 0 and rng.random() < 0.7:
+                    continue
+                yield ("f.powi", [fenc(B, base, 0, p, m), "k:" + hx(sg * k)])
+
+def boundary_power_cases(rng, tier):
+    """E2 — boundary classes for k of EVERY bit length: arguments 2^j +- 1 and B^e +- 1 (ln, powi 2 / 3 / -2) and the
+    near-exact square roots powf(k^2 +- 1, 1/2) for k of every bit length up to the precision (the result lies within
+    1/(2k) of the integer k: next to a representable number in the directed modes, next to a midpoint never) in the bases
+    where 1/2 is exact (2, 10, 16, 36)"""
+    js = range(1, 131) if tier != "quick" else sorted(rng.sample(range(1, 131), 16) + [1, 2, 31, 32, 33, 63, 64, 65, 127, 128, 129, 130])
+    for j in js:
+        for d in (1, -1):
+            n = 2 ** j + d
+            if n < 2:
+                continue
+            B = rng.choice(BASES); m = rng.choice(MODES)
+            p = rng.choice([53, 100]) if tier == "quick" else rng.choice([10, 53, 100, 200])
+            s, e = normalize(B, n, 0)
+            if ndigits(B, s) > p:
+                s, e = round_frac(Fraction(n), B, p)
+            yield ("f.ln", [fenc(B, s, e, p, m)])
+            if rng.random() < (0.4 if tier == "quick" else 1.0):
+                yield ("f.powi", [fenc(B, s, e, p, m), "k:" + hx(rng.choice([2, 3, -2]))])
+    for B in BASES:
+        es = range(1, 41) if tier != "quick" else rng.sample(range(1, 41), 5)
+        for ee in es:
+            for d in (1, -1):
+                m = rng.choice(MODES)
+                p = ee + rng.choice([0, 1, 2, 5]) + 1
+                n = B ** ee + d
+                s, e = normalize(B, n, 0)
+                if ndigits(B, s) > p:
+                    continue
+                yield ("f.ln", [fenc(B, s, e, p, m)])
+                yield ("f.powi", [fenc(B, s, e, p, m), "k:" + hx(rng.choice([2, 3, -2]))])
+    for B in (2, 10, 16, 36):
+        half = round_frac(Fraction(1, 2), B, 3)
+        for p in ((53, 100) if tier == "quick" else (24, 53, 100)):
+            kbits_max = int(p * math.log2(B) / 2) - 1
+            bl = range(2, kbits_max + 1) if tier != "quick" else sorted(set(rng.sample(range(2, kbits_max + 1), min(6, kbits_max - 1)) + [kbits_max]))
+            for nb in bl:
+                k = rng.getrandbits(nb - 1) | (1 << (nb - 1))
+                for d in (1, -1):
+                    n = k * k + d
+                    s, e = normalize(B, n, 0)
+                    if ndigits(B, s) > p:
+                        continue
+                    m = rng.choice(DIRECTED) if rng.random() < 0.7 else rng.choice("EH")
+                    yield ("f.powf", [fenc(B, s, e, p, m), fenc(B, half[0], half[1], p, m)])
+
 # ----------------------------------------------------------------------------- source-text tie (Tie A, textual)
 
 _FORMULAS = [  # (name, file, fn, which `fn <name>` in the file, anchor regex, which match, end character)
@@ -638,17 +741,21 @@ def raw_cases(rng, tier):
     BIG_EXP = not q
     yield from guard_cases(rng, tier)
     sc = float(os.environ.get("C11_SCALE", "1"))
-    yield from unary_cases(rng, tier, 1300 if q else int(16000 * sc))
-    yield from powi_cases(rng, tier, 350 if q else int(4000 * sc))
+    # (round 5: the random streams of the thorough tier were cut to 60 % to make room for the E1 / E2 classes and the
+    #  per-case step-bound check of the driver within the tier's time limit)
+    yield from unary_cases(rng, tier, 1300 if q else int(9600 * sc))
+    yield from powi_cases(rng, tier, 350 if q else int(2400 * sc))
     yield from large_argument_cases(rng, tier)
     yield from ln_scale_cases(rng, tier)
     yield from extreme_base_powf_cases(rng, tier)
     yield from overflow_edge_cases(rng, tier)
     yield from pow_guard_arm_cases(rng, tier)
+    yield from extreme_argument_cases(rng, tier)
+    yield from boundary_power_cases(rng, tier)
     yield from sparse_power_cases(rng, tier)
     yield from powi_big_cases(rng, tier, 60 if q else int(600 * sc))
-    yield from powf_cases(rng, tier, 350 if q else int(4000 * sc))
-    yield from adversarial_cases(rng, tier, 250 if q else int(4000 * sc))
+    yield from powf_cases(rng, tier, 350 if q else int(2400 * sc))
+    yield from adversarial_cases(rng, tier, 250 if q else int(2400 * sc))
 
 # ----------------------------------------------------------------------------- pass 1: observe the implementation
 
@@ -990,6 +1097,25 @@ THEOREMS = [
     "Dashu.Props.C11Series.lnFull_exact_only_shortcut",
     "Dashu.Props.C11Series.body_prec",
     "Dashu.Props.C11Series.subUlp_le",
+    "Dashu.Props.C11Series.sum_add_keeps_one",
+    "Dashu.Props.C11Series.expLoop_step_bound",
+    "Dashu.Props.C11Series.expLoop_fuel_suffices",
+    "Dashu.Props.C11Series.expStage_error",
+    "Dashu.Props.C11Series.expTerms_error",
+    "Dashu.Props.C11Series.expLoop_state",
+    "Dashu.Props.C11Gen.seriesGuardDigits_gen",
+    "Dashu.Props.C11Gen.powGuardDigits_gen",
+    "Dashu.Props.C11Gen.expN_gen",
+    "Dashu.Props.C11Gen.expWorkPrecNoScaling_gen",
+    "Dashu.Props.C11Gen.expWorkPrec_gen",
+    "Dashu.Props.C11Gen.expm1PowPrec_gen",
+    "Dashu.Props.C11Gen.iacothWorkPrec_gen",
+    "Dashu.Props.C11Gen.lnWorkPrec_gen",
+    "Dashu.Props.C11Gen.lnGrowPrec_gen",
+    "Dashu.Props.C11Gen.powfGuardDigits_gen",
+    "Dashu.Props.C11Gen.powiWorkPrec_gen",
+    "Dashu.Props.C11Gen.powiNegPrec_gen",
+    "Dashu.Props.C11Gen.fSubUlp_gen",
 ]
 
 REFINED = ["Context::exp_internal entry guards (assert_finite, assert_limited_precision, zero shortcut)",
@@ -1019,24 +1145,50 @@ REFINED = ["Context::exp_internal entry guards (assert_finite, assert_limited_pr
            "f32 estimates of exp.rs / log.rs (usize/Word log2_est, IBig log2_est, Repr::log2_est, Repr::log2_bounds with the f64 "
            "intermediate, `as usize` / `as isize` casts): bit-exact Float32 replica in the driver (Driver/TransEst.lean), an oracle "
            "parameter (`Est`) of the model and of every theorem",
+           "the Maclaurin loop of exp_internal (scaled branch): explicit step bound under the two-sided digits_lb hypothesis, "
+           "`sum += increase` keeps a sum >= 1 for operands of any length, term-by-term error propagation "
+           "(Proofs/Trans/SeriesBound.lean; hypotheses and bound checked per case by the driver: `bound-ok u= slack= kmax=`)",
            "the working-precision / guard-digit / branch-test / stop-test STATEMENTS of exp.rs, log.rs, fbig.rs::sub_ulp "
            "(30 statements): extracted from the repository under check on every run and compared as text with the table the "
-           "mirror was written against (Model/Trans/SourceText.lean, op tie.formula)"]
+           "mirror was written against (Model/Trans/SourceText.lean, op tie.formula)",
+           "Tie A (regenerated + proved): 16 of these statements (series_guard_digits, pow_guard_digits, n, the three "
+           "work_precision assignments of exp_internal, the exp_m1 powering precision, iacoth guard_digits / working precision, "
+           "ln_internal guard_digits / work_precision / `+= precision`, powf guard_digits, powi guard_digits / guard_bits, the "
+           "sub_ulp exponent) are translated into Lean definitions on every run (lean/Dashu/Gen/TransPrec.lean, "
+           "vlib/extract_transprec.py, fails closed outside its subset) and Props/C11Gen proves the definitions the driver "
+           "runs equal to them by rfl: an edit of one of these formulas in /repo breaks the build of Props/C11Gen"]
 FRONTIER = ["that the certificate succeeds on every input (i.e. that the heuristic guard digits always suffice) is NOT proved: "
             "each result is certified a posteriori against a proved enclosure of the real value",
-            "termination of the three series loops with an explicit step bound is NOT proved (the model loops carry a fuel; "
-            "proved: the result does not depend on the fuel, `*_fuel_irrelevant`): a bound needs a two-sided quality "
-            "hypothesis on digits_lb (sub_ulp may be arbitrarily small under the soundness hypothesis alone) and a decay argument "
-            "through the rounded FBig operators whose precision grows with the factorial; the driver reports an exhausted fuel "
-            "(10^6 steps) as `mirror-fuel`, never seen",
-            "no error-propagation theorem for the series stages of exp_internal / ln_internal (only for the final powering stage, "
-            "through powiNonnegF_value + C11Powi.powi_nonneg_error)",
+            "step bound of the series loops: PROVED for the Maclaurin loop of exp_internal on its scaled branch "
+            "(Props/C11Series.expLoop_step_bound: reduced argument 0 < r <= B^-u, u >= 1, r held at w digits; hypotheses "
+            "DubSound, CoarseSound and the two-sided DlbTight: digits <= digits_lb + cS; conclusion: the loop returns a value and "
+            "the last index k is 2 or u*(k-1) < w+cS+1; the driver evaluates hypotheses and conclusion on every mirrored exp / "
+            "exp_m1 case, tag bound-ok, a contradiction is INTERNAL). NOT proved: the unscaled exp_m1 branch (alternating "
+            "series, sum not >= 1), u = 0 (p = 1 outside base 2, where r = rem/B is only < 1), and the atanh loops of "
+            "ln_internal / iacoth (z^2 <= 1/9 is not below 1/B for B >= 10, so the power-of-base decay argument does not "
+            "apply; their fuel independence is proved, exhausted fuel 10^6 is reported as mirror-fuel, never seen)",
+            "error propagation: proved for one stage of the Maclaurin loop (expStage_error) and for the TERMS the loop forms "
+            "(expTerms_error: term k = r^k/k! up to k relative errors B^(1-w)) and for the final powering stage "
+            "(powiNonnegF_value + C11Powi.powi_nonneg_error); NOT proved for the accumulated partial SUM (needs the "
+            "contract of + for a (p+1)-digit operand in the far-apart branch) nor for ln_internal / iacoth",
+            "Tie A does not cover the statements that are wholly inside an f32 estimate (no_scaling, too_large, int_digits, "
+            "powf arg_digits / ln_base_ub / arg_log2, ln's `s` from log2_bounds): they are fields of the oracle Est, replicated "
+            "bit-exactly in Driver/TransEst.lean and tied by text (tie.formula) and by the digit-for-digit run only",
             "FBig comparison inside the stop tests (abs_cmp, <) is at specification (value order; C14 proves the code's comparison), "
             "IBig::div_rem_euclid is Int.ediv/emod",
             "mirror runs are budgeted by the effective precision eff = p (for ln / ln_1p / the base of powf outside base 2: "
             "max(p, |log_B x|), the digit count of 2^s that FBig::from hands on as a precision): every case up to "
-            "eff*floor(log2 B) <= 1700, one in eight up to 5300, none above and none for |exponent| > 20000 "
+            "eff*floor(log2 B) <= 1700, one in eight up to 2600, none above and none for |exponent| > 20000 "
             "(`mirror-skip` / no annotation): there only the certificate decides",
+            "statement review (round 5), clause by clause: (a) `within 1 ulp for every argument, precision, base, mode`: a for-all "
+            "theorem exists only for powi in the two nearest modes (C11Powi.powi_nonneg_half_lt_ulp, powi_neg_half_lt_ulp); for the "
+            "directed modes the clause is FALSE for the code (counterexample theorems, recorded finding); for exp / exp_m1 / ln / "
+            "ln_1p / powf it is carried by the certificate theorems (checked*_sound: accept => within 1 ulp) per input only. "
+            "(b) `Exact only if exact`: entry-guard theorems + expFull_exact_only_zero / lnFull_exact_only_shortcut on the mirror; "
+            "powi: per input through the certificate (certPowi_decided); powf: see the next entry. (c) `unlimited precision is "
+            "refused by panic`: exp_unlimited, ln_unlimited, powf_unlimited, powi_neg_unlimited; that powi with a NON-negative "
+            "exponent at unlimited precision answers exactly is checked per case (exact rational power), no theorem about the "
+            "mirrored loop at p = 0",
             "powf: no theorem that the mirrored flag is Exact only for an exact result (the chain ends Exact only when the rounded "
             "product y*ln x is zero, i.e. for base 1; not proved)"]
 RULE = ("raw cases = entry-guard table (precision 0, +-inf, negative base, exact shortcuts; every base) + "
@@ -1050,6 +1202,11 @@ RULE = ("raw cases = entry-guard table (precision 0, +-inf, negative base, exact
         "+ exp at the edge of the exponent range (both `exponent is too large` sites and the last arguments below them) + "
         "precisions where pow_guard_digits.max(n+2) takes its second arm (bases 2, 3; p in {255, 256, 600, 1024}, more in thorough) "
         "+ 30 `tie.formula` cases (source statements of the working precisions as text). "
+        "+ E1 (round 5): precisions 2^31, 2^32-1, 2^32, 2^32+k, 2^63, usize::MAX-k (k <= 130) of a Context and carried by an FBig "
+        "on the exact shortcuts of all six operations (cheap there), precisions 63/64/65/128 on ordinary arguments, powi "
+        "exponents +-2^31 .. +-2^128 (incl. 2^32+k, 2^64+k) on the bases 0, 1, -1 "
+        "+ E2: ln / powi(2, 3, -2) of 2^j+-1 for every j <= 130 and of B^e+-1 (e <= 40), powf(k^2+-1, 1/2) for k of every bit "
+        "length that fits the precision (bases 2, 10, 16, 36) — quick samples the j / e / bit lengths, thorough takes all. "
         "Pass 1 runs the harness and appends the printed result to the case; pass 2 runs harness and model driver "
         "(entry guards, certificate, and the statement-by-statement mirror of the series: significand, exponent, flag must be equal). "
         "Non-trivial := decided by the certificate (result with non-zero precision); distinct := distinct case lines.")
@@ -1070,7 +1227,11 @@ EXPLANATION = ("Proved in Lean for all inputs: (1) the entry-guard clauses (exp 
                "counted as undecided. (5) Round 4: the numerical bodies are mirrored (Model/Trans/Series.lean) and run by the driver; "
                "Props/C11Series proves the fuel independence of the three series loops, that the powering stage has the value "
                "analysed in C11Powi, and the working-precision formulas as evaluated; the mirror agrees with the implementation "
-               "in significand, exponent and flag on every budgeted case (a disagreement is a `mirror-drift`).")
+               "in significand, exponent and flag on every budgeted case (a disagreement is a `mirror-drift`). (6) Round 5: "
+               "explicit step bound of the Maclaurin loop of exp_internal (scaled branch) under the two-sided hypothesis "
+               "DlbTight on digits_lb (expLoop_step_bound, built on new lemmas that a C03 contract never crosses a power of "
+               "the base and that same-sign FBig addition of operands of any length keeps a sum >= 1), checked per case by "
+               "the driver; error propagation through one stage of the loop and for its terms (expStage_error, expTerms_error).")
 ASSUMPTIONS = ["the harness prints the value the library returned (pass 1 and pass 2 are the same deterministic computation)",
                "Mathlib's Real.exp / Real.log / Real.rpow are the functions the property speaks about"]
 LEVEL_TEXT = ("proof (partial) + certified exploration of the residual: machine-checked Lean 4 theorems for the exactness and "
@@ -1081,7 +1242,8 @@ LEVEL_TEXT = ("proof (partial) + certified exploration of the residual: machine-
               "result against the proved enclosures. The numerical bodies (exp_internal, ln_internal, iacoth, ln2, ln10, ln_base, "
               "powf) are mirrored statement by statement in the Lean model and tied to the code digit for digit on every "
               "budgeted case; proved about the mirror: fuel independence of the series loops, the value link of its powering stage "
-              "to the powi error bound, the spelled-out working-precision formulas.")
+              "to the powi error bound, the spelled-out working-precision formulas, an explicit step bound of the Maclaurin "
+              "loop (scaled branch, two-sided digits_lb hypothesis, checked per case) and the error of its terms.")
 LEVEL_NOTE = ("Trusted: Lean kernel; axioms propext/Classical.choice/Quot.sound; Mathlib's definitions of exp/log/rpow; the "
               "harness output format; the generators (sampling) for the unproved residual. The numerical algorithms of "
               "exp_internal/ln_internal/iacoth/powf ARE mirrored and compared digit for digit (Tie B) and their precision formulas "
